@@ -622,3 +622,66 @@ Fixpoint spec_run (c : cfg) (st : astate) (nx : N) (ops : list op) : option (lis
                   end
       end
   end.
+
+(** ** steps in which user code panics
+
+    [fuse = Some k]: the (k+1)-th call of user code (an element destructor) the step makes panics.  What
+    any_vec promises then (C06): nothing is destroyed twice, whatever is still visible is alive - the only
+    damage is that some elements are leaked. *)
+
+(** [clear] destroys the elements in order; when the destructor of element [k] panics the vector is already
+    empty: elements [k+1 ..] are leaked *)
+Definition sp_clear_f (c : cfg) (st : astate) (nx : N) (v : nat) (k : N) : option sres :=
+  match get_a v st with
+  | Some a =>
+      let xs := a_xs a in
+      let emptied := set_a v (Some (with_xs a [])) st in
+      if c_dg c && (k <? N.of_nat (length xs))
+      then Some (panic_res PUser (map EDrop (firstn (S (N.to_nat k)) xs)) emptied nx)
+      else Some (ok_res [] (if c_dg c then map EDrop xs else []) emptied nx)
+  | None => None
+  end.
+
+(** a removal handle that is dropped: its element's destructor is the only user call; when it panics the
+    vector keeps the elements in front of the handle, the tail behind it is leaked *)
+Definition sp_take_drop_f (c : cfg) (st : astate) (nx : N) (v : nat) (tk : tkind) (idx : N) (k : N) : option sres :=
+  match sp_take c st nx v tk idx KDrop with
+  | Some r0 =>
+      if c_dg c && (k =? 0) && (s_out r0 =? 0) then
+        match get_a v st with
+        | Some a =>
+            let xs := a_xs a in
+            let i := match tk with TPop => (length xs - 1)%nat | _ => N.to_nat idx end in
+            Some (panic_res PUser [EDrop (nth i xs 0)] (set_a v (Some (with_xs a (firstn i xs))) st) nx)
+        | None => None
+        end
+      else Some r0
+  | None => None
+  end.
+
+Definition spec_step_f (c : cfg) (st : astate) (nx : N) (fuse : option N) (o : op) : option sres :=
+  match fuse with
+  | None => spec_step c st nx o
+  | Some k =>
+      match o with
+      | OClear _ v => sp_clear_f c st nx v k
+      | OPop _ v KDrop => sp_take_drop_f c st nx v TPop 0 k
+      | ORemove _ v idx KDrop => sp_take_drop_f c st nx v TRemove idx k
+      | OSwapRemove _ v idx KDrop => sp_take_drop_f c st nx v TSwapRemove idx k
+      | _ => None
+      end
+  end.
+
+(** a whole history whose steps may carry a fuse *)
+Fixpoint spec_run_f (c : cfg) (st : astate) (nx : N) (ops : list (option N * op)) : option (list sres) :=
+  match ops with
+  | [] => Some []
+  | (f, o) :: r =>
+      match spec_step_f c st nx f o with
+      | None => None
+      | Some x => match spec_run_f c (s_st x) (s_nx x) r with
+                  | None => None
+                  | Some l => Some (x :: l)
+                  end
+      end
+  end.
